@@ -324,7 +324,9 @@ def spaces(tier, variant, seed):
 
     # ---------------- text streams ----------------
     ZT = [0, 1, -1, 255, -256, 10 ** 20, -(10 ** 20) - 7, (1 << 64), -(1 << 130) + 1, al.PAT(4)["dense"]]
-    QT = [Fraction(0), Fraction(1), Fraction(-1, 2), Fraction(22, 7), Fraction(-(1 << 64) - 1, 3), Fraction(10 ** 20, 10 ** 19 + 1), Fraction(-255, 256), Fraction(1 << 100, 3)]
+    QT = [Fraction(0), Fraction(1), Fraction(-1, 2), Fraction(22, 7), Fraction(-(1 << 64) - 1, 3), Fraction(10 ** 20, 10 ** 19 + 1), Fraction(-255, 256), Fraction(1 << 100, 3),
+          # denominators of several limbs whose LOW limb alone is 1, 2, 0: "is the denominator 1?" must look at all of it
+          Fraction(-7, (1 << 64) + 1), Fraction(5, (3 << 64) + 1), Fraction(1, (1 << 128) + 1), Fraction(3, (1 << 64) + 2), Fraction(-9, 1 << 64), Fraction(11, (1 << 65) + 1)]
     FT = [Fraction(0), Fraction(1), Fraction(-3, 2), Fraction(5, 8), Fraction(-1234567), Fraction(1 << 70), Fraction(-1, 1 << 20), Fraction(255 * 16 ** 5), Fraction(3, 1 << 40)]
     TB = (2, 10, 16, 36, 62, -16)
     TBF = (2, 10, 16, 36)      # mpf_out_str documents bases 2..36; its exponent marker is ambiguous for negative bases
